@@ -414,6 +414,13 @@ def check_persist_population(ctx, cards, fmt, sdir):
         p = odml.Property("p%d" % i, values=[1, 2], dtype="int", parent=host, val_cardinality=c)
         top = odml.Section("top%d" % i, "t", parent=doc, sec_cardinality=cards[(i + 2) % len(cards)])
         exp.append((s.sec_cardinality, s.prop_cardinality, p.val_cardinality, top.sec_cardinality))
+    # a chain of Sections without own Properties whose LAST sub-Section alone carries cardinalities
+    nest = odml.Section("nest", "t", parent=doc)
+    mid = odml.Section("mid", "t", parent=nest)
+    odml.Section("first", "t", parent=mid)
+    last = odml.Section("last", "t", parent=mid, sec_cardinality=cards[0], prop_cardinality=cards[-1])
+    exp_nest = (nest.sec_cardinality, nest.prop_cardinality, mid.sec_cardinality, mid.prop_cardinality,
+                last.sec_cardinality, last.prop_cardinality)
     path = os.path.join(sdir, "c09pop.%s" % fmt.lower())
     if os.path.exists(path):
         os.remove(path)
@@ -426,6 +433,16 @@ def check_persist_population(ctx, cards, fmt, sdir):
             h = back.sections["host"]
             got.append((h.sections["s%d" % i].sec_cardinality, h.sections["s%d" % i].prop_cardinality,
                         h.properties["p%d" % i].val_cardinality, back.sections["top%d" % i].sec_cardinality))
+        n2 = back.sections["nest"]
+        m2 = n2.sections["mid"]
+        l2 = m2.sections["last"]
+        got_nest = (n2.sec_cardinality, n2.prop_cardinality, m2.sec_cardinality, m2.prop_cardinality,
+                    l2.sec_cardinality, l2.prop_cardinality)
+        for what, ev, gv in zip(("nest.sections", "nest.properties", "mid.sections", "mid.properties", "last.sections",
+                                 "last.properties"), exp_nest, got_nest):
+            if ev != gv:
+                rec.violation("persist/population/%s" % ("leaked-from-a-child" if ev is None else ("dropped" if gv is None else "altered")),
+                              "%s %s: %r came back as %r" % (fmt, what, ev, gv), case)
     except Exception as exc:
         rec.violation("persist/population/raised-%s" % type(exc).__name__, "%s: %r" % (fmt, exc), case)
         return
